@@ -4,6 +4,7 @@ use crate::engine::{Obs, PResult, Run};
 use serde::de::DeserializeOwned;
 use serde_json::Value;
 
+pub mod c01;
 pub mod c07;
 pub mod c13;
 pub mod c14;
@@ -19,6 +20,7 @@ pub struct Entry {
 
 pub fn lookup(id: &str) -> Option<Entry> {
     let e = match id {
+        "C01" => Entry { id: "C01", run: c01::run, replay: c01::replay },
         "C07" => Entry { id: "C07", run: c07::run, replay: c07::replay },
         "C13" => Entry { id: "C13", run: c13::run, replay: c13::replay },
         "C14" => Entry { id: "C14", run: c14::run, replay: c14::replay },
